@@ -1,6 +1,6 @@
 (* C01: round trip and "nothing is verified but exactly what was signed" for the three JWS serializations. *)
 From Coq Require Import List NArith ZArith Bool Ascii String Lia.
-From Authlib Require Import Base.Bytes Base.Base64 Base.PyVal Model.JWS Proofs.Base64P.
+From Authlib Require Import Base.Bytes Base.Base64 Base.PyVal Model.KeyPolicy Model.JWS Proofs.Base64P.
 Import ListNotations.
 Open Scope string_scope.
 Open Scope list_scope.
@@ -65,29 +65,29 @@ Proof. intros J. unfold JWS.extract_header. rewrite urlsafe_b64decode_encode, J.
 
 (* ---------- compact ---------- *)
 Theorem compact_roundtrip_l allow private protected payload rawkey s :
-  json_roundtrip -> sig_correct ->
+  json_roundtrip -> sig_correct -> crit_check private protected = None ->
   serialize_compact allow private protected payload rawkey = JOk s ->
-  deserialize_compact allow s rawkey = JOk (protected, payload).
+  deserialize_compact allow private s rawkey = JOk (protected, payload).
 Proof.
-  intros J C. unfold JWS.serialize_compact.
+  intros J C CR. unfold JWS.serialize_compact.
   destruct (validate_private_headers private protected); [discriminate|].
   destruct (prepare allow protected rawkey) as [[alg k]|e] eqn:P; [|discriminate].
   destruct (sign alg k _) as [sg|] eqn:S; [|discriminate].
   intros H. injection H as <-. unfold JWS.deserialize_compact, signing_input in *.
   rewrite (rsplit_dot_app _ _ (b64url_nodot sg)).
   rewrite (split_first_app _ _ (b64url_nodot (json_dumps protected))).
-  rewrite (extract_header_encode _ J). unfold extract_segment. rewrite !urlsafe_b64decode_encode.
+  rewrite (extract_header_encode _ J), CR. unfold extract_segment. rewrite !urlsafe_b64decode_encode.
   rewrite P. rewrite (C _ _ _ _ S). reflexivity.
 Qed.
 
 (* whatever is accepted: the token splits at its first and its last dot; the header and payload returned are the
    decodings of those two segments; the algorithm is the header's, allowed and registered; and the signature
    verified over EXACTLY the text before the last dot *)
-Theorem compact_accept_sound_l allow s rawkey h payload :
-  deserialize_compact allow s rawkey = JOk (h, payload) ->
+Theorem compact_accept_sound_l allow private s rawkey h payload :
+  deserialize_compact allow private s rawkey = JOk (h, payload) ->
   exists pseg plseg sigseg sg alg k,
     rsplit_dot s = Some ((pseg ++ "." ++ plseg)%string, sigseg) /\ nodot pseg /\
-    extract_header pseg = JOk h /\ urlsafe_b64decode plseg = Some payload /\ urlsafe_b64decode sigseg = Some sg /\
+    extract_header pseg = JOk h /\ crit_check private h = None /\ urlsafe_b64decode plseg = Some payload /\ urlsafe_b64decode sigseg = Some sg /\
     prepare allow h rawkey = JOk (alg, k) /\
     verify alg k (pseg ++ "." ++ plseg)%string sg = true.
 Proof.
@@ -95,6 +95,7 @@ Proof.
   destruct (rsplit_dot s) as [[sinput sigseg]|] eqn:R; [|discriminate].
   destruct (split_first "." sinput) as [pseg [plseg|]] eqn:SF; [|discriminate].
   destruct (extract_header pseg) as [h0|] eqn:EH; [|discriminate].
+  destruct (crit_check private h0) eqn:CR; [discriminate|].
   unfold extract_segment.
   destruct (urlsafe_b64decode plseg) as [pl|] eqn:D1; [|discriminate].
   destruct (urlsafe_b64decode sigseg) as [sg|] eqn:D2; [|discriminate].
@@ -127,21 +128,21 @@ Proof.
 Qed.
 
 (* ---------- JSON ---------- *)
-Lemma validate_all_sound allow plseg rawkey : forall sigs hs,
-  validate_all allow plseg sigs rawkey = JOk (hs, true) ->
-  Forall2 (fun o h => validate_json_jws allow plseg o rawkey = JOk (h, true)) sigs hs.
+Lemma validate_all_sound allow private plseg rawkey : forall sigs hs,
+  validate_all allow private plseg sigs rawkey = JOk (hs, true) ->
+  Forall2 (fun o h => validate_json_jws allow private plseg o rawkey = JOk (h, true)) sigs hs.
 Proof.
   induction sigs as [|o r IH]; cbn; intros hs H.
   - injection H as <-. constructor.
-  - destruct (validate_json_jws allow plseg o rawkey) as [[h v]|] eqn:V; [|discriminate].
-    destruct (validate_all allow plseg r rawkey) as [[hs' vs]|] eqn:VA; [|discriminate].
+  - destruct (validate_json_jws allow private plseg o rawkey) as [[h v]|] eqn:V; [|discriminate].
+    destruct (validate_all allow private plseg r rawkey) as [[hs' vs]|] eqn:VA; [|discriminate].
     injection H as <- H. apply andb_true_iff in H. destruct H as [-> ->]. constructor; auto.
 Qed.
 
-Lemma validate_json_jws_sound allow plseg o rawkey h :
-  validate_json_jws allow plseg o rawkey = JOk (h, true) ->
+Lemma validate_json_jws_sound allow private plseg o rawkey h :
+  validate_json_jws allow private plseg o rawkey = JOk (h, true) ->
   exists protected alg k sg,
-    extract_header (oval (so_protected o)) = JOk protected /\
+    extract_header (oval (so_protected o)) = JOk protected /\ crit_check private protected = None /\
     h = hmerge protected (match so_header o with PDict d => d | _ => [] end) /\
     prepare allow h rawkey = JOk (alg, k) /\
     urlsafe_b64decode (oval (so_signature o)) = Some sg /\
@@ -151,6 +152,7 @@ Proof.
   destruct (otruthy (so_protected o)); cbn [negb]; [|discriminate].
   destruct (otruthy (so_signature o)); cbn [negb]; [|discriminate].
   destruct (extract_header (oval (so_protected o))) as [protected|] eqn:EH; [|discriminate].
+  destruct (crit_check private protected) eqn:CR; [discriminate|].
   destruct (py_truthy (so_header o) && negb _); [discriminate|].
   destruct (prepare allow _ rawkey) as [[alg k]|] eqn:P; [|discriminate].
   unfold extract_segment. destruct (urlsafe_b64decode (oval (so_signature o))) as [sg|] eqn:D; [|discriminate].
@@ -159,11 +161,11 @@ Qed.
 
 (* a JSON JWS is accepted only if EVERY signature in it verifies, each over its own protected segment and the
    one payload segment *)
-Theorem json_accept_sound_l allow plseg general sigs rawkey hs payload :
-  deserialize_json allow plseg general sigs rawkey = JOk (hs, payload) ->
+Theorem json_accept_sound_l allow private plseg general sigs rawkey hs payload :
+  deserialize_json allow private plseg general sigs rawkey = JOk (hs, payload) ->
   exists seg, plseg = Some seg /\ urlsafe_b64decode seg = Some payload /\
     Forall2 (fun o h => exists protected alg k sg,
-               extract_header (oval (so_protected o)) = JOk protected /\
+               extract_header (oval (so_protected o)) = JOk protected /\ crit_check private protected = None /\
                h = hmerge protected (match so_header o with PDict d => d | _ => [] end) /\
                prepare allow h rawkey = JOk (alg, k) /\
                urlsafe_b64decode (oval (so_signature o)) = Some sg /\
@@ -171,7 +173,7 @@ Theorem json_accept_sound_l allow plseg general sigs rawkey hs payload :
 Proof.
   unfold JWS.deserialize_json. destruct plseg as [seg|]; [|discriminate].
   unfold extract_segment. destruct (urlsafe_b64decode seg) as [pl|] eqn:D; [|discriminate].
-  destruct (validate_all allow seg sigs rawkey) as [[hs' [|]]|] eqn:VA; try discriminate.
+  destruct (validate_all allow private seg sigs rawkey) as [[hs' [|]]|] eqn:VA; try discriminate.
   intros H. injection H as <- <-. exists seg. repeat split; auto.
   apply validate_all_sound in VA. induction VA; constructor; auto.
   apply validate_json_jws_sound. assumption.
@@ -186,11 +188,11 @@ Proof. destruct x as [|a x]; [congruence|]. intros _. cbn. destruct x as [|b x];
 Lemma sign_json_verifies allow private plseg protected unprot rawkey o :
   json_roundtrip -> sig_correct -> (forall d, json_dumps d <> "") ->
   (forall alg k m, sign alg k m <> Some "") ->
-  (py_truthy unprot = true -> exists d, unprot = PDict d) ->
+  (py_truthy unprot = true -> exists d, unprot = PDict d) -> crit_check private protected = None ->
   sign_json allow private plseg protected unprot rawkey = JOk o ->
-  validate_json_jws allow plseg o rawkey = JOk (hmerge protected (match unprot with PDict d => d | _ => [] end), true).
+  validate_json_jws allow private plseg o rawkey = JOk (hmerge protected (match unprot with PDict d => d | _ => [] end), true).
 Proof.
-  intros J C DN SN UD. unfold JWS.sign_json.
+  intros J C DN SN UD CR. unfold JWS.sign_json.
   destruct (validate_private_headers private _); [discriminate|].
   destruct (prepare allow _ rawkey) as [[alg k]|] eqn:P; [|discriminate].
   destruct (sign alg k _) as [sg|] eqn:S; [|discriminate].
@@ -199,7 +201,7 @@ Proof.
   rewrite (b64url_nonempty _ (DN protected)). cbn [negb].
   assert (sg <> "") by (intros ->; eapply SN; eauto).
   rewrite (b64url_nonempty _ H). cbn [negb].
-  rewrite (extract_header_encode _ J).
+  rewrite (extract_header_encode _ J), CR.
   assert (U : py_truthy unprot && negb (match unprot with PDict _ => true | _ => false end) = false).
   { destruct (py_truthy unprot) eqn:T; [|reflexivity]. destruct (UD eq_refl) as [d ->]. reflexivity. }
   rewrite U.
@@ -210,20 +212,21 @@ Qed.
 
 Theorem json_roundtrip_l allow private payload hs rawkey sigs :
   json_roundtrip -> sig_correct -> (forall d, json_dumps d <> "") -> (forall alg k m, sign alg k m <> Some "") ->
-  Forall (fun pu => py_truthy (snd pu) = true -> exists d, snd pu = PDict d) hs ->
+  Forall (fun pu => (py_truthy (snd pu) = true -> exists d, snd pu = PDict d) /\ crit_check private (fst pu) = None) hs ->
   sign_all allow private (b64url_encode payload) hs rawkey = JOk sigs ->
-  deserialize_json allow (Some (b64url_encode payload)) true sigs rawkey =
+  deserialize_json allow private (Some (b64url_encode payload)) true sigs rawkey =
     JOk (map (fun pu => hmerge (fst pu) (match snd pu with PDict d => d | _ => [] end)) hs, payload).
 Proof.
   intros J C DN SN FA H. unfold JWS.deserialize_json, extract_segment. rewrite urlsafe_b64decode_encode.
-  assert (V : validate_all allow (b64url_encode payload) sigs rawkey =
+  assert (V : validate_all allow private (b64url_encode payload) sigs rawkey =
               JOk (map (fun pu => hmerge (fst pu) (match snd pu with PDict d => d | _ => [] end)) hs, true)).
   { revert sigs H. induction FA as [|[p u] r Hx FA IH]; intros sigs H; cbn in H.
     - injection H as <-. reflexivity.
     - destruct (sign_json allow private (b64url_encode payload) p u rawkey) as [o|] eqn:SJ; [|discriminate].
       destruct (sign_all allow private (b64url_encode payload) r rawkey) as [os|] eqn:SA; [|discriminate].
       injection H as <-. cbn [JWS.validate_all map fst snd].
-      rewrite (sign_json_verifies _ _ _ _ _ _ _ J C DN SN Hx SJ). rewrite (IH os eq_refl). reflexivity. }
+      destruct Hx as [Hx1 Hx2]. cbn [fst snd] in *.
+      rewrite (sign_json_verifies _ _ _ _ _ _ _ J C DN SN Hx1 Hx2 SJ). rewrite (IH os eq_refl). reflexivity. }
   rewrite V. reflexivity.
 Qed.
 End P.
